@@ -205,7 +205,13 @@ const LITERALS: [&str; 34] = [
   "\"/* not a comment */\"", "\"  spaces  \"", "\"\\0\\b\\f\\v\"", "(a)", "((a))", "(((1)))",
 ];
 
-const DECLS: [&str; 14] = [
+const DECLS: [&str; 19] = [
+  // import lists the printer merges / sorts: nothing may be lost, not even a repeated name
+  "import { A, B, A } from Lib\nclass X {}",
+  "import { A } from Lib\nimport { B, A } from Lib\nclass X {}",
+  "import { B } from Lib\nimport { A } from Other\nimport { B } from Lib\nclass X {}",
+  "import { } from Lib\nclass X {}",
+  "import { A } from Lib\nimport { A } from Other\nclass X {}",
   "class A",
   "class A {}",
   "private class A(val a: int, private val b: Str) {}",
